@@ -1,13 +1,16 @@
 import Driver.Proto
-import PqModel.Delta
+import PqModel.DeltaGo
+import PqModel.DeltaKernel
 
 /-! Ops of C04 / DELTA encodings.
 
 * `delta.specdec32 <hex>` / `delta.specdec64 <hex>` -> `ok <signed ints> <remaining hex>` | `err <class>`
-* `delta.enc32 <signed ints>` / `delta.enc64 <signed ints>` -> `ok <hex>`   (mirror of the Go encoder)
+* `delta.enc32 <signed ints>` / `delta.enc64 <signed ints>` -> `ok <hex>`   (mirror of the Go encoder down to the word-level OR of encodeMiniBlockInt32/64: `mirrorEncodeK`)
 * `dlba.specdec <hex>` / `dba.specdec <hex>` -> `ok <values> <remaining hex>` | `err <class>`
 * `dlba.enc <values>` / `dba.enc <values>` -> `ok <hex>`
 * `dba.encflba <size> <hex>` -> `ok <hex>`; `dlba.encraw <src hex> <offsets>` -> `ok <hex>` (raw Go API input)
+* `delta.godec32 <hex>` / `delta.godec64 <hex>` -> `ok <signed ints>` | `err <class>`  (mirror of the Go decoder)
+* `dlba.godec <hex>` -> `ok <data hex> <offsets>` | `err <class>`; `dba.godec <hex>` -> `ok <values>` | `err <class>`
 Value lists: comma separated hex strings, `e` = empty value, `-` = empty list. -/
 namespace Driver.Ops.C04Delta
 open Driver PqModel.Delta
@@ -43,8 +46,41 @@ def decVals (r : Except Err (List (List Nat) × List Nat)) : String :=
   | .ok (vs, rest) => s!"ok {showVals vs} {bytesOut rest}"
   | .error e => s!"err {errName e}"
 
+def goErrName : GoErr → String
+  | .eof => "eof" | .overflow => "overflow" | .badHeader => "badheader" | .negative => "negative"
+  | .tooLarge => "toolarge" | .tooMany => "toomany" | .firstRange => "firstrange" | .missing => "missing"
+  | .overwide => "overwide" | .negLength => "neglen" | .lengthOOB => "lenoob" | .negPrefix => "negprefix"
+  | .prefixOOB => "prefixoob" | .countMismatch => "count"
+
+def goInts {n : Nat} (r : Except GoErr (List (BitVec n) × List Nat)) : String :=
+  match r with
+  | .ok (xs, _) => s!"ok {showInts xs}"
+  | .error e => s!"err {goErrName e}"
+
 def handle (toks : List String) : Option String :=
   match toks with
+  | ["delta.godec32", h] => some <|
+    match parseHex? h with
+    | some bs => goInts (goDecode32 (bytesIn bs))
+    | none => "bad-op"
+  | ["delta.godec64", h] => some <|
+    match parseHex? h with
+    | some bs => goInts (goDecode64 (bytesIn bs))
+    | none => "bad-op"
+  | ["dlba.godec", h] => some <|
+    match parseHex? h with
+    | some bs =>
+      match goDecodeDLBA (bytesIn bs) with
+      | .ok (data, os) => s!"ok {bytesOut data} {showList toString os}"
+      | .error e => s!"err {goErrName e}"
+    | none => "bad-op"
+  | ["dba.godec", h] => some <|
+    match parseHex? h with
+    | some bs =>
+      match goDecodeDBA (bytesIn bs) with
+      | .ok vs => s!"ok {showVals vs}"
+      | .error e => s!"err {goErrName e}"
+    | none => "bad-op"
   | ["delta.specdec32", h] => some <|
     match parseHex? h with
     | some bs => decInts (specDecode32 (bytesIn bs))
@@ -55,11 +91,11 @@ def handle (toks : List String) : Option String :=
     | none => "bad-op"
   | ["delta.enc32", vs] => some <|
     match parseList? parseInt? vs with
-    | some xs => s!"ok {bytesOut (mirrorEncode32 (xs.map (BitVec.ofInt 32)))}"
+    | some xs => s!"ok {bytesOut (mirrorEncodeK (xs.map (BitVec.ofInt 32)))}"
     | none => "bad-op"
   | ["delta.enc64", vs] => some <|
     match parseList? parseInt? vs with
-    | some xs => s!"ok {bytesOut (mirrorEncode64 (xs.map (BitVec.ofInt 64)))}"
+    | some xs => s!"ok {bytesOut (mirrorEncodeK (xs.map (BitVec.ofInt 64)))}"
     | none => "bad-op"
   | ["dlba.specdec", h] => some <|
     match parseHex? h with
